@@ -1,7 +1,10 @@
 package main
 
 import (
+	"encoding/hex"
 	"fmt"
+	"github.com/preslavrachev/gomjml/parser"
+	"html"
 	"regexp"
 	"strings"
 
@@ -261,6 +264,41 @@ func runC04(res *Result, tier string, seed int64, replay string) {
 				Input: map[string]string{"source": src, "signature": sig}})
 		}
 	})
+	// (1b) the escaping of decoded character data: real parser.EscapeCharData against the Lean model (driver `cdata`), and the
+	// round trip the theorem states (decoding once gives the text back) evaluated on the real bytes too
+	{
+		texts := []string{"", "plain", "<b>x</b>", "a & b", "&lt;b&gt;", "&amp;nbsp;", "&#60;", "&&&", "<<>>", "a&b<c>d&", "&amp;amp;lt;", "日本語 & <é>", "\x00&\xff<", "]]>", "&amp", "&lt", "& lt;"}
+		alphabet := []string{"&", "<", ">", ";", "amp", "lt", "gt", "#60", "nbsp", "a", " ", "&amp;", "&lt;", "&gt;", "é", "\n"}
+		for i, n := 0, 400; i < n; i++ {
+			r := NewRng(seed, fmt.Sprintf("c04/cdata/%d", i))
+			var b strings.Builder
+			for j, m := 0, r.Intn(14); j < m; j++ {
+				b.WriteString(r.Pick(alphabet))
+			}
+			texts = append(texts, b.String())
+		}
+		for _, t := range texts {
+			real := parser.EscapeCharData(t)
+			line, derr := drv.Ask("cdata x" + hex.EncodeToString([]byte(t)))
+			parts := strings.Fields(line)
+			res.Case("cdata|"+t, true)
+			res.mu.Lock()
+			res.Programs++
+			res.DisagreementsChecked++
+			res.mu.Unlock()
+			if derr != nil || len(parts) != 2 {
+				res.Disagree(Violation{Sig: "driver-failed|cdata", What: fmt.Sprint(derr, " ", short(line, 80))})
+				continue
+			}
+			if "x"+hex.EncodeToString([]byte(real)) != parts[0] {
+				res.Disagree(Violation{Sig: "chardata-model-mismatch", Kind: "input", What: fmt.Sprintf("EscapeCharData(%q) = %q, the Lean model says %s", t, real, parts[0]), Input: map[string]string{"text": t}})
+				continue
+			}
+			if parts[1] != "x"+hex.EncodeToString([]byte(t)) || html.UnescapeString(real) != t {
+				res.Violate(Violation{Sig: "chardata-roundtrip", Kind: "input", What: fmt.Sprintf("decoding EscapeCharData(%q) once does not give the text back", t), Input: map[string]string{"text": t}})
+			}
+		}
+	}
 	// (2) layout documents
 	runLayoutProp("C04")(res, tier, seed, "")
 	res.Rule = strings.Replace(res.Rule, "(2) the layout documents of C02/C03 with a sentinel in every slot", "(2) "+layoutRule(), 1)
